@@ -246,6 +246,7 @@ def run(tier, seed):
     except Exception as e:
         ck.proof_broken("model driver Drv/C01.lean", repr(e))
         outs = []
+    ck.extra["model_replays_with_driver_level_send_commands"] = sum(1 for q in modelq if re.search(r"(^|;| )sc:", q[0]))
     ck.extra["model_replays_with_timed_op"] = sum(1 for q in modelq if "sar:" in q[0])
     ck.extra["model_replays_with_pauses_in_timed_op"] = sum(1 for q in modelq if re.search(r"sar:[^;]*:[01]*1[01]*(;|$)", q[0]))
     for (req, want, desc), out in zip(modelq, outs):
